@@ -55,4 +55,14 @@ META = {
         "technique": "Coq proof (exact denotation of the swap program, Qpower algebra) + raw-tape replay and threshold bisection against real tempering containers",
         "design_ref": "DESIGN.md §3 C10",
     },
+    "C15": {
+        "text": "Coq theorems for all couplings J, fields and variables: every term into_qmc builds is accepted by the generic constructors (conversion cannot fail), acts on the same variables with the "
+                "same cluster-edge flag, and has exactly the Ising sampler's matrix elements (all 16 two-site patterns, all transverse patterns, diagonal field patterns; no off-diagonal field part); "
+                "the offsets differ by N*Gamma, so energies differ by a run-independent constant. Convert.v is tied to the code by comparing every matrix element of every converted bond, the offset, the flags and the "
+                "carried-over state / operator string / cutoff on random samplers converted before any step and after k steps; the trajectory clause is decided by lock-step runs from the same RNG state.",
+        "note": "Trusted: Coq kernel + vm_compute; Model/Convert.v transcription. Known finding (recorded, not repaired): for h != 0 the converted sampler cannot follow the original's trajectory "
+                "(the generic sampler has no weighted cluster update and performs none once the field term breaks Ising symmetry).",
+        "technique": "Coq proof (case analysis over Q with lra) + element-by-element correspondence and lock-step differential runs",
+        "design_ref": "DESIGN.md §3 C15",
+    },
 }
